@@ -28,6 +28,9 @@ Definition client_events (x : st) (s : sid) : list nat :=
   match lookup s (cstreams x) with Some c => c_events c | None => [] end.
 Definition client_lost (x : st) (s : sid) : list nat :=
   match lookup s (cstreams x) with Some c => c_lost c | None => [] end.
+(* the sticky error of an error frame ([PErr s] in an S2C frame list) has been attached to the stream *)
+Definition client_err (x : st) (s : sid) : bool :=
+  match lookup s (cstreams x) with Some c => c_err c | None => false end.
 Definition server_events (x : st) (s : sid) : list nat :=
   match lookup s (sstreams x) with
   | Some c => s_events c
@@ -49,7 +52,8 @@ Fixpoint list_eqb (a b : list nat) : bool :=
 
 Inductive scase :=
 (* frames the client's reader received; per stream: what ReadMessage returned, and whether the reader
-   consumed everything (then equality is required, otherwise a prefix) *)
+   consumed everything (then equality is required, otherwise a prefix).  An error frame is written [PErr s]: the
+   drain decodes it like any other frame; it yields no message *)
 | S2C (streams : list sid) (frames : list s2c_frame) (reads : list (sid * (list nat * bool)))
 | C2S (frames : list c2s_frame) (reads : list (sid * (list nat * bool))).
 
@@ -79,3 +83,8 @@ Fixpoint mismatches_from (i : nat) (l : list scase) : list nat :=
   | c :: r => if check c then mismatches_from (S i) r else i :: mismatches_from (S i) r
   end.
 Definition mismatches (l : list scase) : list nat := mismatches_from 0 l.
+
+(* an error frame between two messages: both messages are delivered, in order, and nothing is delivered for the frame *)
+Example check_error_frame :
+  check (S2C [1; 2] [PAck 1; PAck 2; PMsg 1 5; PErr 1; PMsg 2 9; PMsg 1 6; PErr 3] [(1, ([5; 6], true)); (2, ([9], true))]) = true.
+Proof. vm_compute. reflexivity. Qed.
